@@ -102,7 +102,7 @@ func init() {
 			{Name: "crash-at-every-event-short-histories", Cfg: "clients=1,imgcap=400,cutden=1,maxops=10,noreopen,nosettle,nosecondcrash", Gating: true, Share: 3, ThoroughOnly: true},
 			{Name: "power-loss-at-every-event-short-histories", Cfg: "clients=1,imgcap=400,cutden=1,maxops=10,noreopen,nosettle,nosecondcrash,powerloss", Gating: true, Share: 2, ThoroughOnly: true},
 		},
-		QuickSecs: 80, ThoroughSecs: 900, MaxRunsPerProc: 100,
+		QuickSecs: 120, ThoroughSecs: 900, MaxRunsPerProc: 100,
 		Rule:   "one case = one generated write/delete/snapshot/compaction history plus the crash images cut from it (sampled disk events, torn last write); non-trivial = at least 4 operations and one context switch; distinct = distinct hash of (operations, schedule, crash cuts)",
 		Probes: []string{},
 		Real:   engReal, Stub: engStub,
@@ -179,7 +179,7 @@ func init() {
 			{Name: "concurrent-writers-deleters", Cfg: "clients=3,noreopen", Gating: true, Share: 3},
 			{Name: "single-client-with-reopen", Cfg: "clients=1,wmeta=4", Gating: true, Share: 1},
 		},
-		QuickSecs: 60, ThoroughSecs: 900, MaxRunsPerProc: 150,
+		QuickSecs: 80, ThoroughSecs: 900, MaxRunsPerProc: 150,
 		Rule:   "one case = one generated multi-client program of writes (routed to 3 shards), predicate+range deletes across shards, reads, snapshots, compactions under one seeded schedule; non-trivial = at least 4 operations and one context switch; distinct = distinct hash of (operations, context-switch sequence)",
 		Probes: []string{"writer_parked_on_guard", "metadata_checks"},
 		Real:   storeReal, Stub: engStub[:4],
@@ -226,7 +226,7 @@ func init() {
 		ID: "C06", Harness: "eng", Inst: storagePkgs, Level: "exploration", Classes: []string{"C06:"},
 		Cfgs: []cfgSpec{{Name: "keycursor-over-engine-files", Cfg: fileCfg + ",nocompactcheck,notombcheck", Gating: true, Share: 1},
 			{Name: "keycursor-over-many-uncompacted-files", Cfg: fileCfg + ",nocompactcheck,notombcheck,nocompact,wsnap=9,maxops=90", Gating: true, Share: 1}},
-		QuickSecs: 75, ThoroughSecs: 600, MaxRunsPerProc: 150,
+		QuickSecs: 100, ThoroughSecs: 600, MaxRunsPerProc: 150,
 		Rule:      "one case = the set of TSM files and tombstones a real engine produced under one generated write/overwrite/delete/snapshot/compaction program and seeded schedule, read through KeyCursor at every timestamp +-1 of every key, both directions, scalar and array form; non-trivial = at least 4 operations and one context switch; distinct = distinct hash of (operations, schedule)",
 		Probes:    []string{"filecheck_multi_file", "filecheck_tombstones", "keycursor_reads"},
 		Real:      append([]string{"tsm1.FileStore.KeyCursor, Read*Block / Read*ArrayBlock over copies of the engine's files"}, engReal...), Stub: engStub,
